@@ -34,9 +34,26 @@ def checks():
 _base_cache: dict = {}
 
 
-def _check(tree: Path, p: str, tag: str):
+_ref_dirs: dict = {}
+
+
+def _reference_for(commit):
+    """the reference snapshot the rules compare with is the tree the seeder started from"""
+    if not commit:
+        return None
+    if commit not in _ref_dirs:
+        d = Path(tempfile.mkdtemp(prefix="pdtsa-seedref-"))
+        _materialise(commit, d)
+        _ref_dirs[commit] = d
+    return _ref_dirs[commit]
+
+
+def _check(tree: Path, p: str, tag: str, commit=None):
     fd = tree / f"findings-{tag}"
     env = dict(os.environ, PDTSA_NO_EVIDENCE="1", PDTSA_FINDINGS_DIR=str(fd))
+    ref = _reference_for(commit)
+    if ref is not None:
+        env["PDTSA_REFERENCE_DIR"] = str(ref)
     c = subprocess.run([str(VERIF / "check"), p, "--repo", str(tree)], capture_output=True, text=True, env=env, timeout=1800)
     keys = {}
     for f in (fd / p).glob("*.json") if (fd / p).exists() else []:
@@ -68,7 +85,7 @@ def base_results(commit: str | None, props):
             tmp = Path(tempfile.mkdtemp(prefix="pdtsa-seedbase-"))
             try:
                 _materialise(commit, tmp)
-                _base_cache[k] = _check(tmp, p, "base")
+                _base_cache[k] = _check(tmp, p, "base", commit)
             finally:
                 shutil.rmtree(tmp, ignore_errors=True)
         out[p] = _base_cache[k]
@@ -85,7 +102,7 @@ def run_one(d: Path, props, commit=None):
         base = base_results(commit, props) if commit else {p: (0, {}, []) for p in props}
         res = {}
         for p in props:
-            rc, keys, err = _check(tmp, p, "patched")
+            rc, keys, err = _check(tmp, p, "patched", commit)
             brc, bkeys, berr = base[p]
             new = {k: v for k, v in keys.items() if k not in bkeys}
             status = 1 if new else (2 if rc == 2 and brc != 2 else 0)
